@@ -99,7 +99,9 @@ struct HorizonHit {};
 
 // chi_GTw, chi_Fw, chi'_GT, chi'_F, chi'_T, chi'_P, chi'_R. Two sets: with chi'_R != 0 the 1/r^2 terms dominate and cancel between
 // a_eta and b_eta (the angular coefficient hardly depends on the Coulomb term rksi); with chi'_R = 0 it depends on it strongly
-static const double NME_SETS[2][7] = {{0.9, -0.15, 1.1, -0.25, 0.07, 0.4, 0.8}, {0.9, -0.15, 1.1, -0.25, 0.07, 0.4, 0.0}};
+// (third set: small chi'_P and chi'_R, neither dominating - the spectrum SHAPE then depends on the nuclear radius; with chi'_R ~ 1
+//  a wrong radius only rescales the whole spectrum and cancels in every rejection test)
+static const double NME_SETS[3][7] = {{0.9, -0.15, 1.1, -0.25, 0.07, 0.4, 0.8}, {0.9, -0.15, 1.1, -0.25, 0.07, 0.4, 0.0}, {0.9, -0.15, 1.1, -0.25, 0.07, 0.10, 0.02}};
 static int NME_SET = 0;
 #define NME NME_SETS[NME_SET]
 
@@ -151,6 +153,56 @@ struct RefSide {
     toall = d0ref::g.c_enrange.m2;
     available = (ier == 0);
     return ier;
+  }
+  // the single-call form of the entry point (istart = 0: initialise and generate one event in one call), on a model that was
+  // not initialised before; the deviates are those of the (unsqueezed) initialisation stream
+  Ev one_call(const Config & c, uint64_t phase)
+  {
+    d0ref::init_blockdata();
+    chn.assign(d0ref::FS(c.name.c_str()));
+    i2 = c.dbd() ? 1 : 2;
+    lev = c.dbd() ? c.level : 0;
+    mode = c.dbd() ? c.mode : 0;
+    if (c.dbd()) {
+      d0ref::g.c_enrange.m0 = c.lo();
+      d0ref::g.c_enrange.m1 = c.hi();
+      auto & n = d0ref::g.c_eta_nme;
+      n.m0 = NME[0]; n.m1 = NME[1]; n.m2 = NME[2]; n.m3 = NME[3]; n.m4 = NME[4]; n.m5 = NME[5]; n.m6 = NME[6];
+    }
+    Forced none;
+    vx::Source s;
+    s.forced = &none;
+    s.phase = phase ^ 0x5bd1e995ULL;
+    s.squeeze = false;
+    d0ref::mon.reset();
+    d0ref::mon.source = ref_source;
+    d0ref::mon.ctx = &s;
+    d0ref::mon.horizon = 2000000;
+    d0ref::mon.log_cmps = false;
+    int ist = 0, ier = 0;
+    Ev e;
+    try {
+      d0ref::f_genbbsub(i2, chn, lev, mode, ist, ier);
+    } catch (d0ref::HorizonExceeded &) {
+      e.horizon = true;
+    } catch (std::exception & x) {
+      e.threw = true;
+      e.what = std::string("model fault: ") + x.what();
+    }
+    e.err = ier;
+    auto & ge = d0ref::g.c_genevent;
+    int np = ge.m1;
+    double t = 0;
+    for (int k = 1; k <= np && k <= 100; k++) {
+      t += ge.m4(k);
+      e.code.push_back(ge.m2(k));
+      e.t.push_back(t);
+      e.px.push_back(ge.m3(1, k));
+      e.py.push_back(ge.m3(2, k));
+      e.pz.push_back(ge.m3(3, k));
+    }
+    e.ndraws = d0ref::mon.next;
+    return e;
   }
   Ev shot(const Forced & f, bool logc = false, int logdraw = -1)
   {
@@ -313,6 +365,47 @@ struct PortSide {
     ek = p.EK;
     edlevel = p.levelE / 1000.;
     return err;
+  }
+  // single-call form (istart = 0) on a working block of its own
+  static Ev one_call(const Config & c, uint64_t phase)
+  {
+    Forced none;
+    PortRand r;
+    r.s.forced = &none;
+    r.s.phase = phase ^ 0x5bd1e995ULL;
+    r.s.squeeze = false;
+    r.horizon = 2000000;
+    bxdecay0::bbpars pars;
+    bxdecay0::event ev;
+    Ev e;
+    int err = 0;
+    try {
+      if (c.dbd()) {
+        pars.chi_GTw = NME[0]; pars.chi_Fw = NME[1]; pars.chip_GT = NME[2]; pars.chip_F = NME[3]; pars.chip_T = NME[4]; pars.chip_P = NME[5]; pars.chip_R = NME[6];
+        pars.ebb1 = c.lo();
+        pars.ebb2 = c.hi();
+        bxdecay0::genbbsub(r, ev, 1, c.name, c.level, c.mode, 0, err, pars);
+      } else {
+        bxdecay0::genbbsub(r, ev, 2, c.name, -1, -1, 0, err, pars);
+      }
+    } catch (HorizonHit &) {
+      e.horizon = true;
+    } catch (std::exception & x) {
+      e.threw = true;
+      e.what = x.what();
+    }
+    e.err = err;
+    for (auto & p : ev.get_particles()) {
+      e.code.push_back((int)p.get_code());
+      e.t.push_back(p.get_time());
+      e.px.push_back(p.get_px());
+      e.py.push_back(p.get_py());
+      e.pz.push_back(p.get_pz());
+    }
+    e.evtime = ev.get_time();
+    e.label = ev.get_generator();
+    e.ndraws = r.i;
+    return e;
   }
   Ev shot(const Forced & f, bool want_ctx = false)
   {
